@@ -531,7 +531,7 @@ fn c26_case(c: &NameCase) -> CaseResult {
             // a rename or transfer involves two names: the database's current one and the new
             // one; either can be the unvalidated name that causes the damage
             let class = match op {
-                NameOp::Rename | NameOp::Transfer(false) if name_class(&decoded) != "plain" => name_class(&decoded),
+                NameOp::Rename | NameOp::Transfer(false) => worse_class(name_class(&decoded), name_class(&odecoded)),
                 _ => name_class(name_for_sig),
             };
             let transfer_target = matches!(op, NameOp::Transfer(_)) && (k.starts_with(&format!("{data_rel}/{u2}/")) && !protected.contains(k));
@@ -635,9 +635,13 @@ fn c26_case(c: &NameCase) -> CaseResult {
             types_before = types_now;
         }
         if !r.ok() && changed.iter().any(|k| !is_server_file(k, &data_rel) && *k != format!("{data_rel}/")) {
-            let name_for_sig = if matches!(op, NameOp::Copy | NameOp::Rename | NameOp::Transfer(false)) && !(matches!(op, NameOp::Rename | NameOp::Transfer(false)) && name_class(&decoded) != "plain") { &odecoded } else { &decoded };
+            let class = match op {
+                NameOp::Rename | NameOp::Transfer(false) => worse_class(name_class(&decoded), name_class(&odecoded)),
+                NameOp::Copy => name_class(&odecoded),
+                _ => name_class(&decoded),
+            };
             return Err(Fail::new(
-                confinement_sig(name_class(name_for_sig), "rejected request changed the file system"),
+                confinement_sig(class, "rejected request changed the file system"),
                 format!("{changed:?}\n{}\nname {decoded:?} other {odecoded:?}", trace.join("\n")),
             ));
         }
@@ -678,6 +682,13 @@ fn op_name(op: &NameOp) -> &'static str {
         NameOp::Remove => "remove",
         NameOp::Transfer(_) => "ownership transfer",
     }
+}
+
+/// Of the two names a rename or transfer involves, the one whose class escapes furthest is named
+/// in the signature (all classes are instances of one root cause: names are not validated).
+fn worse_class(a: &'static str, b: &'static str) -> &'static str {
+    let rank = |c: &str| ["plain", "backup/audit suffix", "reserved directory name", "leading dot", "separator", "dot-dot segment"].iter().position(|x| *x == c).unwrap_or(0);
+    if rank(b) > rank(a) { b } else { a }
 }
 
 fn name_class(decoded: &str) -> &'static str {
@@ -752,7 +763,7 @@ fn name_case() -> impl Strategy<Value = NameCase> {
 
 pub fn c26(ctx: &mut Ctx) {
     ctx.rule = "database names built from 1-3 pieces of a grammar of path-like and special strings (separators / and \\, their percent-encoded and double-encoded forms, '.' and '..' segments, leading dots incl. the recovery-log name '.x' of an existing database 'x', the reserved directory names audit and backups and paths inside them, .bak / .log suffixes, blanks, control and non-ASCII characters), each piece sent raw or percent-encoded, used with add, copy (as new_db), rename (as new_db), backup, restore, clear, convert, exec_mut, delete, remove and ownership transfer (admin rename to the other user) by one user while another user and the same user own a plain database 'x' with a backup. One fresh server per case, nested five levels below the scratch root. Oracle: a manifest (path, size, content hash) of the whole scratch root is taken before and after every request; every created, modified or deleted path (except the server's own bookkeeping files) must lie under data_dir/<owner>/; no file of database 'x' (main, recovery log, backup, audit) may be changed by a request on another name; a rejected request changes nothing; for plain names additionally, files that a request leaves behind under a user's directory without a database (after rename, conversion, ownership transfer through the admin rename, delete) are tracked, and a later request that creates a database of that name - which thereby adopts another database's backup, recovery log, audit log or data - is a violation ('no two databases share a file' over time); databases detached with remove keep their files, as documented. evaluations = requests. Non-trivial: the name contains a separator, dot segment, leading dot, reserved name or suffix and the server answered 2xx or changed the file system. Pass B repeats the campaign with names restricted to plain pieces (no separator, dot, reserved name or suffix), where every failure is a violation. Distinct = hash of the case.".into();
-    let cases = ctx.tier.pick(90, 2500);
+    let cases = ctx.tier.pick(90, 1500);
     replay_saved::<NameCase, _>(ctx, "c26-names", c26_case);
     run_campaign(ctx, CampaignCfg { name: "c26-names", cases, max_shrink_iters: 40, max_restarts: 2 }, name_case, c26_case);
     // pass B: plain names only - whatever fails here has another cause than the listed findings
